@@ -5,6 +5,7 @@
 package simnode
 
 import (
+	"runtime"
 	"crypto/ecdsa"
 	"fmt"
 	"os"
@@ -128,6 +129,9 @@ func (n *Node) start() error {
 	os.MkdirAll(subDir, 0755)
 	validation.SetAppConfig(cfg)
 	keyStore := keystore.NewKeyStore(ksDir, keystore.StandardScryptN, keystore.StandardScryptP)
+	// NewKeyStore registers a finalizer that takes the account cache's lock; it would run on the runtime's
+	// finalizer goroutine at an arbitrary moment of a LATER run
+	runtime.SetFinalizer(keyStore, nil)
 	if n.Sec != nil {
 		n.Sec.Destroy()
 	}
